@@ -642,6 +642,11 @@ class Interp:
             if name in ('itertools.combinations', 'itertools.combinations_with_replacement', 'itertools.permutations') and len(args) == 2:
                 import itertools
                 return list(getattr(itertools, short)(list(self.iterate(args[0])), args[1]))
+            if name == 'itertools.groupby' and 1 <= len(args) <= 2 and set(kwargs) <= {'key'}:
+                import itertools
+                keyf = kwargs.get('key', args[1] if len(args) == 2 else None)
+                kf = (lambda x: x) if keyf is None else (lambda x, keyf=keyf: self.apply(f, keyf, [x]))
+                return [(k0, list(g0)) for k0, g0 in itertools.groupby(list(self.iterate(args[0])), key=kf)]
             if name == 'itertools.chain':
                 out0 = []
                 for a0 in args:
